@@ -38,7 +38,9 @@ def replay_fold(run, rp):
         open(one, "w").write(json.dumps({"id": 1, "doc": rp["q"]}) + "\n")
         sub.harness(["fold-docs", "-in", one, "-out", res])
     else:
-        sub.harness(["fold-text", "-q", rp["q"], "-out", res])
+        one = os.path.join(sub.work, "one_text.ndjson")          # through a file: a text may hold a NUL, which no argv can
+        open(one, "w").write(json.dumps(rp["q"]) + "\n")
+        sub.harness(["fold-text", "-in", one, "-out", res])
     stage_judge_fold(sub, res)
     return bool(sub.failures) or bool(sub.known)
 
